@@ -155,6 +155,20 @@ def sparse_overrides(rnd, n):
     return ov
 
 
+def repeated_row_overrides(rnd, pat):
+    """adjacent identical rows / patterns with non-default contents (sfx pattern k+1 = pattern k, gfx row r+1 = row r, ...)"""
+    ov = {}
+    for start, rowlen, nrows in ((0x0000, 64, 128), (0x2000, 128, 32), (0x3000, 128, 2), (0x3100, 4, 64), (0x3200, 68, 64)):
+        for _ in range(3):
+            r = rnd.randrange(max(1, nrows - 1))
+            row = [rnd.randrange(256) for _ in range(rowlen)]
+            for k in range(rnd.randrange(2, 4)):
+                if r + k < nrows:
+                    for i, v in enumerate(row):
+                        ov[start + (r + k) * rowlen + i] = v
+    return ov
+
+
 LUA_SAMPLES = [
     b'', b'x=1', b'x=1\n', b'-- t\nprint("hi")\n', b'print("\x80\x99\xff \x01\x0f")\n-- \xe9\n\xc8b=1\n',
     b's="tab\there" t=\'q\'\n\n\nz=3\n', bytes(b for b in range(16, 256) if b not in (34, 92)).join([b'x="', b'"\n']),
